@@ -24,6 +24,8 @@ def prog_words(kind):
         return [A(1, 0, 5), A(2, 0, 7), b_type(0x63, 0, 1, 2, 12), A(3, 0, 1), j_type(0x6F, 0, 8), A(4, 0, 2), A(5, 0, 3), A(6, 0, 9)]
     if kind == 2:      # loop: blocks 1 + 3 + 2
         return [A(1, 0, 3), A(2, 2, 1), A(1, 1, -1), b_type(0x63, 1, 1, 0, -8), A(7, 0, 1), r_type(0x33, 0, 0, 8, 7, 2)]
+    if kind == 4:      # indirect jump through a register the user supplies, then three instructions
+        return [i_type(0x67, 0, 0, 5, 0), A(1, 0, 1), A(2, 0, 2), A(3, 0, 3)]
     # memory traffic, two blocks
     return [u_type(0x37, 5, 0x10), s_type(0x23, 3, 5, 1, 0), i_type(0x03, 3, 6, 5, 0), b_type(0x63, 1, 6, 0, 8), A(7, 0, 1), A(8, 0, 2), A(9, 0, 3)]
 
@@ -101,7 +103,7 @@ class UICheck(Check):
 
 def listing_len(kind):
     """number of listing lines of prog_words(kind) (blocks: header + instructions + blank)"""
-    return {0: 6, 1: 15, 2: 12, 3: 11}[kind]
+    return {0: 6, 1: 15, 2: 12, 3: 11, 4: 8}[kind]
 
 
 class C22(UICheck):
@@ -215,6 +217,18 @@ class C22(UICheck):
                             continue
                         session(kind, [cmd("", ["entry"]), cmd("", ["e"])] + [cmd("", ["s"])] * steps +
                                 [cmd("", ["memory", mkey]), cmd("", ml), cmd("", ["d", "0"])])
+        # an indirect jump to wherever the user says: instruction starts, the middle of an instruction (also of the jump
+        # itself), the end of the code, outside it, odd addresses, the ends of the address space
+        for v in (0x1004, 0x1005, 0x1006, 0x1002, 0x1000, 0x100C, 0x100E, 0x1010, 0x1012, 0x2000, 0, 1, 2, (1 << 64) - 1, (1 << 64) - 4, 1 << 63):
+            for via in ("prompt", "regmod"):
+                ls = [cmd("", ["goto", "1"]), cmd("", ["e"])]
+                if via == "regmod":
+                    ls += [cmd("", ["s"], filler="4100"), cmd("", ["q"]), cmd("", ["goto", "1"]), cmd("", ["e"]),
+                           cmd("", ["regmod", "x5"], filler=str(v))]
+                ls += [cmd("", ["s"], filler=str(v)), {"case": "", "op": "render", "n": 9}, cmd("", ["s"], filler=str(v)),
+                       cmd("", ["s"], filler="3"), {"case": "", "op": "render", "n": 9}, cmd("", ["memory", "memory"]), cmd("", ["q"]), cmd("", ["q"]),
+                       cmd("", ["d", "1"])]
+                session(4, ls)
         return gs
 
 
